@@ -55,6 +55,16 @@ def make_store_class():
                     edits += 1
                 self.applied_count[k] = self.applied_count.get(k, 0) + 1
             rec["ok"] = True
+            # how a store words its report is its own business: some return nothing at all
+            shape = getattr(self, "reply", None)
+            if shape == "empty":
+                return {}
+            if shape == "none":
+                return None
+            if shape == "clamped-only":
+                return {"clamped": clamps}
+            if shape == "int":
+                return edits
             return {"edits": edits, "clamps": clamps}
 
     return WorldStore
